@@ -163,6 +163,13 @@ func (w *watches) remove(fd int, path string) bool {
 
 	delete(w.wd, fd)
 	delete(w.seen, path)
+	if isDir { // Forget the entries we didn't watch (sockets, named pipes).
+		for p := range w.seen {
+			if _, ok := w.path[p]; !ok && filepath.Dir(p) == path {
+				delete(w.seen, p)
+			}
+		}
+	}
 	return isDir
 }
 
@@ -600,6 +607,9 @@ func (w *kqueue) watchDirectoryFiles(dirPath string) error {
 				return fmt.Errorf("%q: %w", path, err)
 			}
 		}
+		if cleanPath == "" { // Not watched (socket, named pipe), but it does exist.
+			cleanPath = filepath.Clean(path)
+		}
 
 		w.watches.markSeen(cleanPath, true)
 	}
@@ -653,9 +663,12 @@ func (w *kqueue) sendCreateIfNew(path string, fi os.FileInfo) error {
 	}
 
 	// Like watchDirectoryFiles, but without doing another ReadDir.
-	path, err := w.internalWatch(path, fi)
+	watched, err := w.internalWatch(path, fi)
 	if err != nil {
 		return err
+	}
+	if watched != "" { // Empty for sockets and named pipes: not watched, but seen.
+		path = watched
 	}
 	w.watches.markSeen(path, true)
 	return nil
